@@ -16,11 +16,31 @@ def negate(t):
     return ast.UnaryOp(ast.Not(), t)
 
 
+MODE = "swap"
+for a in sys.argv[1:]:
+    if a.startswith("--mode="):
+        MODE = a.split("=", 1)[1]
+MIRROR = {ast.Eq: ast.Eq, ast.NotEq: ast.NotEq, ast.Lt: ast.Gt, ast.Gt: ast.Lt, ast.LtE: ast.GtE, ast.GtE: ast.LtE}
+
+
 class Swap(ast.NodeTransformer):
+    """--mode=swap   : if c: A else: B  ->  if <not c>: B else: A
+       --mode=noelse : additionally  if c: A  ->  if <not c>: pass else: A   (no elif chains)
+       --mode=cmpswap: a == b -> b == a, a < b -> b > a, ... for every single-operator comparison"""
     def visit_If(self, node):
         self.generic_visit(node)
+        if MODE == "cmpswap":
+            return node
         if node.orelse and not (len(node.orelse) == 1 and isinstance(node.orelse[0], ast.If)):
             return ast.copy_location(ast.If(negate(node.test), node.orelse, node.body), node)
+        if MODE == "noelse" and not node.orelse:
+            return ast.copy_location(ast.If(negate(node.test), [ast.Pass()], node.body), node)
+        return node
+
+    def visit_Compare(self, node):
+        self.generic_visit(node)
+        if MODE == "cmpswap" and len(node.ops) == 1 and type(node.ops[0]) in MIRROR:
+            return ast.copy_location(ast.Compare(node.comparators[0], [MIRROR[type(node.ops[0])]()], [node.left]), node)
         return node
 
 
@@ -47,7 +67,7 @@ def main():
                 for ln in r.stdout.splitlines():
                     if "VIOLATION" not in ln:
                         print("   ", ln[:230])
-        print("alarms on the if/else-swapped tree:", bad)
+        print("alarms on the %s tree:" % MODE, bad)
     finally:
         if "--keep" not in sys.argv:
             shutil.rmtree(tmp, ignore_errors=True)
